@@ -180,6 +180,7 @@ NetPerformAction.ensures = _netpa_ensures_callsite(NetPerformAction.ensures)
 
 @contract
 class GenerativeStep(Contract):
+    may_draw = True      # at most one draw, exactly as C07 states
     qualname = "nasim.envs.environment.NASimEnv.generative_step"
     tags = {"C05": ("C05", "C20"), "C06": ("C06",), "C12": ("C12",), "C13": ("C13",), "C10": ("C10",),
             "spec": ("C05", "C06", "C12", "C13"), "raises": ("C05", "C06", "C10", "C13"), "frame": ("C13", "C06")}
@@ -313,6 +314,7 @@ class GenerativeStep(Contract):
 
 @contract
 class EnvStep(Contract):
+    may_draw = True      # at most one draw, exactly as C07 states
     def modifies(self, I, S):
         return [S.a["self"]]          # which fields: see the frame obligations
 
@@ -348,6 +350,14 @@ class EnvStep(Contract):
         if not (isinstance(res, tuple) and len(res) == 5):
             return out
         obs_arr, reward, done, limit_flag, info = res
+        s0 = ival(S.old["env"]["steps"])
+        s1 = ival(env.fields["steps"])
+        out.append(("C06.counter", s1 == s0 + 1))
+        if S.extra["limit"]:
+            out.append(("C06.limit-flag", bval(limit_flag) == (s0 + 1 >= sig.step_limit)))
+        else:
+            out.append(("C06.limit-flag", z3.Not(bval(limit_flag)) if not isinstance(limit_flag, bool)
+                        else z3.BoolVal(limit_flag is False)))
         gs = I.ext_state.get("gs_result")
         if gs is None:
             out.append(("C13.agrees", z3.BoolVal(False)))
@@ -366,14 +376,6 @@ class EnvStep(Contract):
                                          z3.BoolVal(info is g_info))))
         out.append(("C13.installs-next-state", z3.BoolVal(env.fields["current_state"] is g_next
                                                            and env.fields["last_obs"] is g_obs)))
-        s0 = ival(S.old["env"]["steps"])
-        s1 = ival(env.fields["steps"])
-        out.append(("C06.counter", s1 == s0 + 1))
-        if S.extra["limit"]:
-            out.append(("C06.limit-flag", bval(limit_flag) == (s1 >= sig.step_limit)))
-        else:
-            out.append(("C06.limit-flag", z3.Not(bval(limit_flag)) if not isinstance(limit_flag, bool)
-                        else z3.BoolVal(limit_flag is False)))
         return out
 
     def frame(self, I, S):
